@@ -60,7 +60,8 @@ impl BlockDecoder {
                 self.decoder = Some(Box::new(codec));
             }
             oti::FECEncodingID::ReedSolomonGF2M => {
-                log::warn!("Not implemented")
+                log::warn!("Not implemented");
+                return Err(FluteError::new("ReedSolomonGF2M decoder is not implemented"));
             }
             oti::FECEncodingID::RaptorQ => {
                 if let Some(SchemeSpecific::RaptorQ(scheme)) = oti.scheme_specific.as_ref() {
